@@ -22,8 +22,8 @@ from ..pool import pmap
 
 # step0 / step2 go through the outer environment, step1 and ireset drive the INNER environment directly (public API,
 # used by the library itself); badstep is an action outside a restricted action space (must raise and change nothing)
-OPS = ['reset', 'step0', 'step1', 'step2', 'obs', 'state', 'oobs', 'ostate', 'ireset', 'badstep']
-CORE_OPS = ['reset', 'step0', 'step1', 'obs', 'oobs', 'ostate', 'badstep']
+OPS = ['reset', 'step0', 'step1', 'step2', 'obs', 'state', 'oobs', 'ostate', 'ireset', 'badstep', 'turnfobs']
+CORE_OPS = ['reset', 'step0', 'step1', 'obs', 'oobs', 'ostate', 'badstep', 'turnfobs']
 
 
 def rng_state(env):
@@ -89,6 +89,18 @@ def judge_sequence(name, seed, seq, repname, acts, fresh_envs=False):
                 return f'{where}: an action outside the action space raised {type(e).__name__}, expected ValueError'
             else:
                 return f'{where}: an action outside the action space was accepted'
+        elif op == 'turnfobs':
+            # the current state object is turned IN PLACE (the library's own in-place transition function), then the
+            # functional observation of that very object is asked for: it must be the observation of its new value
+            from gym_gridverse.envs.transition_functions import transition_function_registry as _TF
+            _TF['turn_agent'](env.state, Action.TURN_LEFT)
+            _TF['turn_agent'](t_state, Action.TURN_LEFT)
+            got = env.functional_observation(env.state)
+            want = twin.functional_observation(t_state)
+            if sdesc(got) != sdesc(want):
+                return f'{where}: functional_observation of the current state object, after it was changed in place, is stale'
+            env._observation = None  # the stateful memo is knowingly outdated after an external in-place change
+            t_obs, last_obs = None, None
         elif op.startswith('step'):
             a = acts[int(op[4])]
             r, d = (env.step(a) if op == 'step1' else outer.step(a))
